@@ -22,7 +22,7 @@ const prop = "C12"
 // Behaviour of one target of one command.
 type Target struct {
 	Task int    // index into the pool of simulated tasks (agent/executor derived from it)
-	Kind string // reply | errreply | sendfail | silent | dup | late | foreignid | foreigntarget | otherscmd
+	Kind string // reply | fastreply (processed before the send call returns) | errreply | sendfail | silent | dup | late | foreignid | foreigntarget | otherscmd
 	Slot int    // arrival slot of the reply (x 8 ms after the send)
 }
 
@@ -141,6 +141,16 @@ func runOnce(c Case) (res vh.Result) {
 			return fmt.Errorf("simulated send failure c%d-t%d", ci, ti)
 		case "reply":
 			deliver(slot, mk(st.cmd.GetId(), "", token(ci, ti)), receiver, token(ci, ti))
+		case "fastreply":
+			// the executor's reply overtakes the acknowledgement of the MESSAGE call: it reaches the servent while the send
+			// function has not returned yet (a send over HTTP returns only when the master has answered)
+			logf("deliver %s from %s before the send returns", token(ci, ti), receiver.TaskId.Value)
+			wg.Add(1)
+			go func() {
+				defer wg.Done()
+				servent.ProcessResponse(mk(st.cmd.GetId(), "", token(ci, ti)), receiver)
+			}()
+			time.Sleep(3 * time.Millisecond)
 		case "errreply":
 			deliver(slot, mk(st.cmd.GetId(), "device refused "+token(ci, ti), token(ci, ti)), receiver, token(ci, ti)+"(err)")
 		case "dup":
@@ -292,7 +302,7 @@ func runOnce(c Case) (res vh.Result) {
 				tok = x.CurrentState
 			}
 			switch t.Kind {
-			case "reply", "dup":
+			case "reply", "dup", "fastreply":
 				// either copy of a duplicated reply is this target's own reply (replies are delivered in their own goroutines and may overtake each other)
 				if t.Kind == "dup" && tok == token(i, j)+"-dup" && tr.Err() == nil {
 					break
@@ -373,7 +383,7 @@ func kindClass(k string) string {
 	switch k {
 	case "sendfail":
 		return "sendfail"
-	case "reply", "errreply", "dup":
+	case "reply", "errreply", "dup", "fastreply":
 		return "answered"
 	}
 	return "unanswered"
@@ -394,7 +404,7 @@ func run(c Case) vh.Result {
 	return r2
 }
 
-var kinds = []string{"reply", "reply", "reply", "errreply", "sendfail", "silent", "dup", "late", "foreignid", "otherscmd", "foreigntarget"}
+var kinds = []string{"reply", "reply", "reply", "fastreply", "errreply", "sendfail", "silent", "dup", "late", "foreignid", "otherscmd", "foreigntarget"}
 
 func gen(t *rapid.T) Case {
 	c := Case{Mode: rapid.SampledFrom([]string{"production", "production", "stress"}).Draw(t, "mode"), Queues: 1}
@@ -426,7 +436,7 @@ func TestCommands(t *testing.T) {
 
 // fixed regression shapes (one per abnormal behaviour, in a 3-target command next to two normal repliers)
 func TestCommandsFixed(t *testing.T) {
-	for _, k := range []string{"errreply", "sendfail", "silent", "dup", "late", "foreignid", "otherscmd", "foreigntarget"} {
+	for _, k := range []string{"fastreply", "errreply", "sendfail", "silent", "dup", "late", "foreignid", "otherscmd", "foreigntarget"} {
 		c := Case{Mode: "production", Queues: 1, Commands: []Command{
 			{Queue: 0, TimeoutMs: 150, Targets: []Target{{0, "reply", 1}, {1, k, 0}, {2, "reply", 2}}},
 			{Queue: 0, TimeoutMs: 150, Targets: []Target{{1, "reply", 0}, {3, "reply", 0}}},
